@@ -30,15 +30,23 @@ type c04Params struct {
 	// second and the consumer drains the queue once, then writing continues:
 	// lines dropped before the drain must show in the percentage of lines after it.
 	MidDrain int
+	// Hist > 0 (long history): the first chunk holds Hist lines, which an eager consumer receives; then the consumer
+	// stops, the writer appends the second chunk (more lines than the queue holds, so the surplus is dropped), the
+	// consumer resumes a second later and the last chunk follows.  Canonical schedule only (long executions).
+	Hist int
 }
 
 func (p c04Params) String() string {
+	if p.Hist > 0 {
+		return fmt.Sprintf("history of %d delivered lines, then %d lines into a stopped queue of capacity %d, then 2 lines", p.Hist, strings.Count(p.Chunks[1], "\n"), p.Cap)
+	}
 	return fmt.Sprintf("initial=%q chunks=%q regex=%q cap=%d late=%v pause=%v middrain=%d", p.Initial, p.Chunks, p.Regex, p.Cap, p.Late, p.Pause, p.MidDrain)
 }
 
 type c04Line struct {
-	Text string
-	Perc int
+	Text  string
+	Perc  int
+	Count uint64 // the running number the line is labelled with
 }
 
 func c04Scenario(p c04Params, idx int) *explore.Scenario {
@@ -73,14 +81,20 @@ func c04Scenario(p c04Params, idx int) *explore.Scenario {
 			})
 			var got []c04Line
 			recv := func(l *line.Line) {
-				got = append(got, c04Line{l.Content.String(), l.TransmittedPerc})
+				got = append(got, c04Line{l.Content.String(), l.TransmittedPerc, l.Count})
 			}
 			consumerStop := vrt.Make[struct{}]("consumerStop", 0)
 			consumerDone := vrt.Make[struct{}]("consumerDone", 0)
+			histReached := vrt.Make[struct{}]("histReached", 0)
+			histResume := vrt.Make[struct{}]("histResume", 0)
 			if !p.Late {
 				vrt.Go("consumer", func() {
 					defer consumerDone.Close("consumerDone")
 					for {
+						if p.Hist > 0 && len(got) == p.Hist {
+							histReached.Send("hist", struct{}{})
+							histResume.Recv("hist")
+						}
 						cl, cs := lines.RecvCase(), consumerStop.RecvCase()
 						if vrt.Select("consumer", false, cl, cs) == 1 {
 							return
@@ -98,11 +112,42 @@ func c04Scenario(p c04Params, idx int) *explore.Scenario {
 				if err != nil {
 					panic(err)
 				}
+				if p.Hist > 0 {
+					// the history must be appended after the follow began
+					for {
+						if _, began := vos.S.SeekEnd[path]; began {
+							break
+						}
+						vrt.Sleep("wait-for-follow", 10*time.Millisecond)
+					}
+				}
 				for i, c := range p.Chunks {
 					if i > 0 && p.Pause > 0 {
 						vrt.Sleep("writer-pause", p.Pause)
 					}
-					f.Write([]byte(c))
+					if p.Hist > 0 && i == 0 {
+						// the history arrives in pieces that fit into the queue, a poll interval apart
+						ls := strings.SplitAfter(c, "\n")
+						for len(ls) > 0 {
+							n := p.Cap
+							if n > len(ls) {
+								n = len(ls)
+							}
+							f.Write([]byte(strings.Join(ls[:n], "")))
+							ls = ls[n:]
+							vrt.Sleep("history-piece", 250*time.Millisecond)
+						}
+					} else {
+						f.Write([]byte(c))
+					}
+					if p.Hist > 0 && i == 0 {
+						histReached.Recv("hist") // every line of the history has been delivered
+					}
+					if p.Hist > 0 && i == 1 {
+						vrt.Sleep("queue-fills", time.Second)
+						histResume.Send("hist", struct{}{})
+						vrt.Sleep("consumer-drains", time.Second)
+					}
 					if p.MidDrain > 0 && i+1 == p.MidDrain {
 						vrt.Sleep("before-mid-drain", time.Second)
 						midReq.Send("mid", struct{}{})
@@ -191,9 +236,15 @@ func c04Oracle(p c04Params, got []c04Line, x int64) (string, string) {
 		return p.Regex == "" || strings.Contains(strings.TrimSuffix(l, "\n"), p.Regex)
 	}
 	var wantSel []string
-	for _, l := range want {
+	var wantNum []uint64 // running number of each selected line among the lines read since the follow began
+	for i, l := range want {
 		if selected(l) {
 			wantSel = append(wantSel, l)
+			n := uint64(i + 1)
+			if fragment != "" {
+				n++ // the remainder of the straddling line was read as line 1
+			}
+			wantNum = append(wantNum, n)
 		}
 	}
 	// delivered lines (minus an optional leading fragment) must be a subsequence of wantSel
@@ -216,6 +267,9 @@ func c04Oracle(p c04Params, got []c04Line, x int64) (string, string) {
 			if k > j {
 				dropped = true
 				drops += k - j
+			}
+			if d.Count != wantNum[k] {
+				return "bad", fmt.Sprintf("follow began at offset %d; %q is line %d of the lines read since the follow began but is labelled with running number %d (%d line(s) were dropped before it); delivered: %v", x, d.Text, wantNum[k], d.Count, drops, got)
 			}
 			if dropped && d.Perc >= 100 {
 				return "bad", fmt.Sprintf("follow began at offset %d; %d line(s) before %q were not delivered, yet it reports transmission percentage %d; delivered: %v, appended: %q", x, k-j, d.Text, d.Perc, got, wantSel)
@@ -284,6 +338,21 @@ func c04ParamSets(tier string) (ps []c04Params, d int) {
 			}
 		}
 	}
+	// long histories: a single drop after hundreds of delivered lines must still show in the percentage
+	for _, h := range []int{30, 120, 250, 450} {
+		for _, cp := range []int{4, 100} {
+			for _, surplus := range []int{1, 3} {
+				var a, b strings.Builder
+				for i := 0; i < h; i++ {
+					fmt.Fprintf(&a, "h%d\n", i)
+				}
+				for i := 0; i < cp+surplus; i++ {
+					fmt.Fprintf(&b, "q%d\n", i)
+				}
+				ps = append(ps, c04Params{Initial: "old\n", Chunks: []string{a.String(), b.String(), "last1\nlast2\n"}, Cap: cp, Hist: h})
+			}
+		}
+	}
 	return ps, 2
 }
 
@@ -293,7 +362,7 @@ func init() {
 		Level: "model_checking",
 		Rule: "stateless exploration of all schedules within a deviation bound of the real TailFile reader following a real file while a writer goroutine appends and a consumer receives: appended text of 1-3 lines over {a, bb, é} " +
 			"in every composition into <=2 (quick) / <=3 (thorough) write() calls (splits inside a line and inside the 2-byte character), initial content empty or 'old\\n', filter regex none/'a', delivery queue capacity 100 with an eager consumer or 1 with a consumer that only " +
-			"receives at the end, optional 150 ms writer pause; file opens, reads and writes are scheduling points; oracle against the offset at which the follow began (observed at its Seek): delivered lines are exactly / a subsequence of the complete " +
+			"receives at the end, optional 150 ms writer pause; plus (canonical schedule) histories of 30..450 delivered lines followed by 1 or 3 lines dropped at a stopped consumer (capacity 4 and 100); file opens, reads and writes are scheduling points; oracle against the offset at which the follow began (observed at its Seek): delivered lines are exactly / a subsequence of the complete " +
 			"lines appended after that offset, unmodified and in order, nothing older, a gap only with a full queue and then the next delivered line has TransmittedPerc < 100",
 		Assumptions: []string{
 			"no truncation or rotation of the followed file (outside the statement)",
@@ -320,8 +389,11 @@ func init() {
 				if c.Thorough() && len(p.Chunks) > 2 {
 					dd = 2
 				}
+				if p.Hist > 0 {
+					dd = 0
+				}
 				sc := c04Scenario(p, c.Shard*100000+i)
-				sc.Agg = fmt.Sprintf("c04 cap=%d late=%v regex=%q pause=%v middrain=%v", p.Cap, p.Late, p.Regex, p.Pause, p.MidDrain > 0)
+				sc.Agg = fmt.Sprintf("c04 cap=%d late=%v regex=%q pause=%v middrain=%v history=%v", p.Cap, p.Late, p.Regex, p.Pause, p.MidDrain > 0, p.Hist > 0)
 				sub := *c
 				sub.Explore(sc, dd, func(msg string, v *explore.Violation) string {
 					switch {
